@@ -6,6 +6,7 @@ import PyModeS.Model.Commb
 import PyModeS.Model.Misc
 import PyModeS.Proofs.Commb.AdsbTotal
 import PyModeS.Proofs.Commb.CommbTotal
+import PyModeS.Proofs.Commb.TellTotal
 namespace PyModeS.C14
 
 /-- a guard of the form "TC must be in the documented set, else RuntimeError" never lets another TC through -/
@@ -440,5 +441,76 @@ theorem adsbAltitude_table (bits : Bits) :
 /-- non-vacuity of the routing tables on the sample TC 19 frame -/
 example : velocityRoute sampleFrame = .val .airborne ∧ positionWithRefRoute sampleFrame = .rte := by
   decide +kernel
+
+end PyModeS.C14
+
+/-! ## `tell()` (appended)
+
+  `Model/Tell.lean` models the outcome of `pyModeS.tell(msg)`: which decoders it calls, under which
+  DF / TC / TC 29 subtype condition, and which label dictionaries it indexes. -/
+namespace PyModeS.C14
+open PyModeS.Tot
+
+/-- the facts about decoder *values* that `tell`'s dictionary look-ups rely on: an airborne-velocity
+    result carries one of the three speed-type keys; on a TC 29 frame with subtype field ≠ 1 the
+    vertical / horizontal mode is `none` or `some v` with `v ∈ {1,2,3}` and the emergency status is < 8 -/
+theorem tell_lookup_keys (bits : Bits) (h : bits.length = 112) :
+    (tcB bits = some 19 → ∃ r, airborneVelocity bits = .val r ∧
+      ∀ v, r = some v → v.spdType = "GS" ∨ v.spdType = "TAS" ∨ v.spdType = "IAS") ∧
+    (tcB bits = some 29 → bin2int (slice 37 39 bits) ≠ 1 →
+      (∃ r, verticalMode bits = .val r ∧ ∀ v, r = some v → v = 1 ∨ v = 2 ∨ v = 3) ∧
+      (∃ r, horizontalMode bits = .val r ∧ ∀ v, r = some v → v = 1 ∨ v = 2 ∨ v = 3) ∧
+      (∃ e, emergencyStatus bits = .val e ∧ e < 8)) := by
+  refine ⟨fun htc => airborneVelocity_spdType bits h htc, fun htc hst => ⟨?_, ?_, ?_⟩⟩
+  · refine ⟨_, verticalMode_val bits h htc hst, ?_⟩
+    intro v hv
+    have := bin2int_slice_lt 13 15 (bits.drop 32)
+    split at hv
+    · cases hv
+    · cases hv; omega
+  · refine ⟨_, horizontalMode_val bits h htc hst, ?_⟩
+    intro v hv
+    have := bin2int_slice_lt 25 27 (bits.drop 32)
+    split at hv
+    · cases hv
+    · cases hv; omega
+  · exact ⟨_, emergencyStatus_val bits h htc hst, bin2int_slice_lt 53 56 (bits.drop 32)⟩
+
+/-- the pieces of `tell`, each total on a 112-bit frame: the ADS-B branch (every decoder called only
+    under the TC for which it is a value; the TC 29 decoders split by subtype exactly as `tellTc29`
+    does), and the Comm-B branch (`infer` and every field decoder are total) -/
+theorem tell_branches_total (ias : Rat → Int → Rat) (bits : Bits) (h : bits.length = 112) :
+    tellCpr bits = .val () ∧ (tcB bits = some 29 → tellTc29 bits = .val ()) ∧
+    tellAdsb bits = .val () ∧ tellCommb ias bits = .val () ∧
+    (dfB bits = 20 → (altcodeB bits).isVal) ∧ (dfB bits = 21 → (idcodeB bits).isVal) :=
+  ⟨tellCpr_val bits h, tellTc29_val bits h, tellAdsb_val bits h, tellCommb_val ias bits h,
+   altcodeB_isVal_df20 bits h, idcodeB_isVal_df21 bits h⟩
+
+/-- **C14, the `tell()` clause.** On any 112-bit frame (28 hex digits, any bit content, any DF) and for
+    any `iasOfMach` oracle, `tell` returns normally: neither RuntimeError nor any other exception
+    escapes. -/
+theorem tell_total_112 : ∀ (ias : Rat → Int → Rat) (bits : Bits), bits.length = 112 →
+    tell ias bits = .val () :=
+  fun ias bits h => tell_val ias bits h
+
+/-- in particular no RuntimeError and no other exception -/
+theorem tell_no_exception_112 (ias : Rat → Int → Rat) (bits : Bits) (h : bits.length = 112) :
+    tell ias bits ≠ .rte ∧ tell ias bits ≠ .exc := by
+  rw [tell_total_112 ias bits h]; exact ⟨by simp, by simp⟩
+
+/-- **Boundary of the claim.** `tell_total_112` is made for 112-bit frames ONLY; nothing is claimed
+    for 56-bit frames.  The length hypothesis cannot be dropped: on the 56-bit frame "8D406B902015A6"
+    (DF 17 bits, TC field 4) `tell` reaches the long-frame decoder `callsign` and the model yields a
+    non-RuntimeError exception (real code: `ValueError: invalid literal for int() with base 2: ''`) —
+    this is the recorded open finding about short frames passed to long-frame decoders. -/
+theorem tell_short_frame_boundary :
+    (hex2bin "8D406B902015A6").length = 56 ∧ tell (fun _ _ => 0) (hex2bin "8D406B902015A6") = .exc := by
+  decide +kernel
+
+/-- real frames: DF17 TC 4 (identification), DF20 Comm-B (BDS 5,0), DF17 TC 29 (target state) -/
+example : tell (fun _ _ => 0) (hex2bin "8D406B902015A678D4D220AA4BDA") = .val () := by decide +kernel
+example : (hex2bin "8D406B902015A678D4D220AA4BDA").length = 112 := by decide +kernel
+example : tell (fun _ _ => 0) (hex2bin "A000139381951536E024D4CCF6B5") = .val () := by decide +kernel
+example : tell (fun _ _ => 0) (hex2bin "8DA05629EA21485CBF3F8CADAEEB") = .val () := by decide +kernel
 
 end PyModeS.C14
